@@ -84,12 +84,15 @@ pub struct AccessLog {
 impl AccessLog {
     pub async fn init(&mut self) -> Result<(), Error> {
         let path = self.path.to_owned();
-        drop(log_open(&path).await?);
+        // the task writes to the file opened here: opening it a second time in the task raced with the end
+        // of a `--test` run (the open fails while the runtime shuts down) and turned that into a panic
+        let file = log_open(&path).await?;
         let (tx, rx) = channel(100);
         self.tx = Some(tx.clone());
         let format = self.format.create()?;
         tokio::spawn(
-            log_thread(format, rx, path).unwrap_or_else(|e| panic!("{} cause: {:?}", e, e.cause)),
+            log_thread(format, rx, path, file)
+                .unwrap_or_else(|e| panic!("{} cause: {:?}", e, e.cause)),
         );
         tokio::spawn(signal_watch(tx));
         Ok(())
@@ -129,8 +132,9 @@ async fn log_thread(
     format: Box<dyn Formater>,
     mut rx: Receiver<Option<Arc<ContextProps>>>,
     path: PathBuf,
+    file: File,
 ) -> Result<(), Error> {
-    let mut stream = BufWriter::new(log_open(&path).await?);
+    let mut stream = BufWriter::new(file);
     loop {
         // every sender gone: the proxy is shutting down (or `--test` is done) - leave quietly with the
         // buffered lines written, not with an error the caller turns into a panic
